@@ -242,6 +242,88 @@ theorem paths_unlinks (qs : List Bytes) : paths (qs.map Ev.unlink) = qs := by
   | nil => rfl
   | cons q qs ih => simp [paths, ih]
 
+/-! ### `cleanuppid()` -/
+
+/-- everything `cleanuppid()` unlinks is `pid/<name>` for an entry that is not `.`/`..`, whose `stat`
+succeeded and whose access time is at least OSSIFIED seconds before `now` -/
+theorem pidUnlinks_sound (now : Nat) (es : List PidEnt) :
+    ∀ p ∈ pidUnlinks now es, ∃ e ∈ es, p = PIDDIR ++ e.name ∧ e.name ≠ DOT1 ∧ e.name ≠ DOT2 ∧
+      ∃ t, e.atime = some t ∧ t + OSSIFIED ≤ now := by
+  induction es with
+  | nil => intro p hp; simp [pidUnlinks] at hp
+  | cons e r ih =>
+    intro p hp
+    have lift : (∃ e' ∈ r, p = PIDDIR ++ e'.name ∧ e'.name ≠ DOT1 ∧ e'.name ≠ DOT2 ∧ ∃ t, e'.atime = some t ∧ t + OSSIFIED ≤ now) →
+        ∃ e' ∈ e :: r, p = PIDDIR ++ e'.name ∧ e'.name ≠ DOT1 ∧ e'.name ≠ DOT2 ∧ ∃ t, e'.atime = some t ∧ t + OSSIFIED ≤ now := by
+      intro ⟨e', h1, h2⟩; exact ⟨e', List.mem_cons_of_mem _ h1, h2⟩
+    unfold pidUnlinks at hp
+    by_cases hd : e.name = DOT1 ∨ e.name = DOT2
+    · rw [if_pos hd] at hp; exact lift (ih p hp)
+    · rw [if_neg hd] at hp
+      cases ha : e.atime with
+      | none => simp only [ha] at hp; exact lift (ih p hp)
+      | some t =>
+        simp only [ha] at hp
+        by_cases hf : now < t + OSSIFIED
+        · rw [if_pos hf] at hp; exact lift (ih p hp)
+        · rw [if_neg hf] at hp
+          rcases List.mem_cons.mp hp with h | h
+          · exact ⟨e, by simp, h, fun h1 => hd (Or.inl h1), fun h2 => hd (Or.inr h2), t, ha, by omega⟩
+          · exact lift (ih p h)
+
+/-- complement: every such entry is unlinked -/
+theorem pidUnlinks_complete (now : Nat) (es : List PidEnt) (e : PidEnt) (he : e ∈ es) (h1 : e.name ≠ DOT1)
+    (h2 : e.name ≠ DOT2) (t : Nat) (ha : e.atime = some t) (ht : t + OSSIFIED ≤ now) :
+    PIDDIR ++ e.name ∈ pidUnlinks now es := by
+  induction es with
+  | nil => cases he
+  | cons x r ih =>
+    have step : PIDDIR ++ e.name ∈ pidUnlinks now r → PIDDIR ++ e.name ∈ pidUnlinks now (x :: r) := by
+      intro h
+      unfold pidUnlinks
+      by_cases hd : x.name = DOT1 ∨ x.name = DOT2
+      · rw [if_pos hd]; exact h
+      · rw [if_neg hd]
+        cases hx : x.atime with
+        | none => exact h
+        | some u =>
+          simp only []
+          by_cases hf : now < u + OSSIFIED
+          · rw [if_pos hf]; exact h
+          · rw [if_neg hf]; exact List.mem_cons_of_mem _ h
+    rcases List.mem_cons.mp he with h | h
+    · subst h
+      unfold pidUnlinks
+      have hd : ¬ (e.name = DOT1 ∨ e.name = DOT2) := fun h => h.elim h1 h2
+      rw [if_neg hd]
+      simp only [ha]
+      have hf : ¬ now < t + OSSIFIED := by omega
+      rw [if_neg hf]; simp
+    · exact step (ih h)
+
+theorem pidUnlinks_old (sc : Scan) (es : List PidEnt) (h : sc.ents = some es) :
+    ∀ p ∈ pidUnlinks sc.now es, pidOld sc p = true := by
+  intro p hp
+  obtain ⟨e, he, hpe, _, _, t, ha, ht⟩ := pidUnlinks_sound sc.now es p hp
+  unfold pidOld
+  simp only [h, List.any_eq_true]
+  exact ⟨e, he, by simp [hpe, ha, ht]⟩
+
+theorem paths_cleanuppid (sc : Scan) : ∀ p ∈ paths (cleanuppid sc), pidOld sc p = true := by
+  intro p hp
+  unfold cleanuppid at hp
+  cases h : sc.ents with
+  | none => simp [h, paths] at hp
+  | some es =>
+    simp only [h, paths, paths_append, paths_unlinks, List.append_nil] at hp
+    exact pidUnlinks_old sc es h p hp
+
+theorem statuses_cleanuppid (sc : Scan) : statuses (cleanuppid sc) = [] := by
+  unfold cleanuppid
+  cases sc.ents with
+  | none => rfl
+  | some es => simp [statuses, statuses_append, statuses_unlinks]
+
 /-! ### the stream -/
 
 theorem takeGroup_shape (qs : List Bytes) (s : Byte) (rest : List Ev) :
@@ -250,23 +332,91 @@ theorem takeGroup_shape (qs : List Bytes) (s : Byte) (rest : List Ev) :
   | nil => simp [takeGroup]
   | cons q qs ih => simp [takeGroup] at ih ⊢; rw [ih]
 
-theorem takeGroup_housekeeping (cl : Nat) (evs : List Ev) :
-    takeGroup (housekeeping cl ++ evs) = takeGroup evs := by
-  unfold housekeeping
-  by_cases h : cl = 0 <;> simp [h, takeGroup]
+theorem takePid_shape (sc : Scan) (ps : List Bytes) (rest : List Ev) (h : ∀ p ∈ ps, pidOld sc p = true) :
+    takePid sc (ps.map Ev.unlink ++ [Ev.cleanupEnd] ++ rest) = some rest := by
+  induction ps with
+  | nil => simp [takePid]
+  | cons p ps ih =>
+    have hp : pidOld sc p = true := h p (by simp)
+    simp only [List.map_cons, List.cons_append, takePid, hp, if_true]
+    exact ih (fun q hq => h q (by simp [hq]))
 
-theorem cleanOK_runReqs (reqs : List Bytes) (cl : Nat) (plan : List Nat) :
-    cleanOK reqs (runReqs cl reqs plan) = true := by
-  induction reqs generalizing cl plan with
-  | nil => unfold runReqs housekeeping cleanOK; by_cases h : cl = 0 <;> simp [h]
+/-- the `cleanuppid()` window (if this iteration has one) is what `takeScan` accepts, provided the
+events that follow do not themselves start with an `opendir` -/
+theorem takeScan_housekeeping (cl : Nat) (scans : List Scan) (evs : List Ev) (hne : ∀ r, evs ≠ Ev.cleanup :: r) :
+    takeScan scans (housekeeping cl scans ++ evs) = some (nextScans cl scans, evs) := by
+  unfold housekeeping nextScans
+  by_cases h : cl = 0
+  · simp only [h, if_true, cleanuppid, List.cons_append, takeScan]
+    cases he : (scans.headD {}).ents with
+    | none => simp
+    | some es =>
+      simp only []
+      rw [takePid_shape _ _ _ (pidUnlinks_old _ es he)]
+      rfl
+  · simp only [h, if_false, List.nil_append]
+    cases evs with
+    | nil => rfl
+    | cons e r => cases e <;> first | rfl | exact absurd rfl (hne r)
+
+theorem cleanOK_runReqs (reqs : List Bytes) (cl : Nat) (plan : List Nat) (scans : List Scan) :
+    cleanOK reqs scans (runReqs cl reqs plan scans) = true := by
+  induction reqs generalizing cl plan scans with
+  | nil =>
+    unfold runReqs cleanOK
+    have := takeScan_housekeeping cl scans [] (fun r h => by cases h)
+    rw [List.append_nil] at this
+    rw [this]; rfl
   | cons q qs ih =>
     obtain ⟨ps, s, h1, h2, h3, _⟩ := handleReq_shape q plan
     unfold runReqs cleanOK
-    rw [List.append_assoc, takeGroup_housekeeping, h1, takeGroup_shape]
-    simp only [Bool.and_eq_true, List.all_eq_true, ih, and_true]
-    refine ⟨fun p hp => by simpa using h2 p hp, ?_⟩
-    by_cases hs : s = stX
-    · simp [h3 hs]
-    · simp [hs]
+    rw [List.append_assoc, takeScan_housekeeping, h1]
+    · simp only []
+      rw [takeGroup_shape]
+      simp only [Bool.and_eq_true, List.all_eq_true, ih, and_true]
+      refine ⟨fun p hp => by simpa using h2 p hp, ?_⟩
+      by_cases hs : s = stX
+      · simp [h3 hs]
+      · simp [hs]
+    · intro r hr
+      rw [h1] at hr
+      cases ps <;> simp at hr
+
+/-- every path the program ever passes to `unlink` is a file named by one of the (validated) requests
+or an old entry of `pid/` in one of the directory scans -/
+theorem paths_runReqs (reqs : List Bytes) (cl : Nat) (plan : List Nat) (scans : List Scan) :
+    ∀ p ∈ paths (runReqs cl reqs plan scans),
+      (∃ q ∈ reqs, p ∈ allowed q) ∨ (∃ sc ∈ scans, pidOld sc p = true) := by
+  have hk : ∀ cl (scans : List Scan), ∀ p ∈ paths (housekeeping cl scans), ∃ sc ∈ scans, pidOld sc p = true := by
+    intro cl scans p hp
+    unfold housekeeping at hp
+    by_cases h : cl = 0
+    · rw [if_pos h] at hp
+      cases scans with
+      | nil => simp [cleanuppid, paths] at hp
+      | cons sc r => exact ⟨sc, by simp, paths_cleanuppid sc p (by simpa using hp)⟩
+    · rw [if_neg h] at hp; simp [paths] at hp
+  have hsub : ∀ cl (scans : List Scan), ∀ sc ∈ nextScans cl scans, sc ∈ scans := by
+    intro cl scans sc hsc
+    unfold nextScans at hsc
+    by_cases h : cl = 0
+    · rw [if_pos h] at hsc; exact List.mem_of_mem_tail hsc
+    · rw [if_neg h] at hsc; exact hsc
+  induction reqs generalizing cl plan scans with
+  | nil => intro p hp; exact Or.inr (hk cl scans p hp)
+  | cons q qs ih =>
+    intro p hp
+    unfold runReqs at hp
+    rw [paths_append, paths_append] at hp
+    rcases List.mem_append.mp hp with hp | hp
+    · rcases List.mem_append.mp hp with hp | hp
+      · exact Or.inr (hk cl scans p hp)
+      · obtain ⟨ps, s, h1, h2, _, _⟩ := handleReq_shape q plan
+        rw [h1, paths_append, paths_unlinks] at hp
+        simp [paths] at hp
+        exact Or.inl ⟨q, by simp, h2 p hp⟩
+    · rcases ih _ _ _ p hp with ⟨q', hq', h⟩ | ⟨sc, hsc, h⟩
+      · exact Or.inl ⟨q', List.mem_cons_of_mem _ hq', h⟩
+      · exact Or.inr ⟨sc, hsub cl scans sc hsc, h⟩
 
 end Nq.Lemmas.CleanL
